@@ -269,7 +269,9 @@ pub(super) enum State<'a, 'p> {
         array: GcView<ArrayData<'p>>,
     },
     StdManifestXmlJsonmlItem1,
-    StdManifestXmlJsonmlItemN,
+    StdManifestXmlJsonmlItemN {
+        index: usize,
+    },
     StdManifestTomlEx,
     StdMember {
         value: GcView<ThunkData<'p>>,
